@@ -55,7 +55,8 @@ def run_case(spec):
     dp = DilatedPair(world, ping_interval=rng.choice([None, 5.0]))
     twins = spec["kind"] == "twins"
     drv = ScriptDriver(dp, rng, late_listen=0.0 if twins else 0.2, pauses=spec.get("pauses", 0),
-                       reactive=(12 if (spec["kind"] == "random" and spec["seed"] % 3 == 0) else 0))
+                       reactive=(12 if (spec["kind"] == "random" and spec["seed"] % 3 == 0) else 0),
+                       falsy=(0.6 if (spec["kind"] == "random" and spec["seed"] % 4 == 2) else 0.0))
     by = None
     if twins or spec.get("bystander", spec["seed"] % 4 == 1):
         # a second, undisturbed dilated pair in the same process: nothing of one pair may reach the other
@@ -183,7 +184,7 @@ def run_case(spec):
     viol = []
     counters = {"kills": kills["done"], "kills_skipped": kills["skipped"], "opens": len(drv.opens),
                 "writes_delivered": 0, "complete": int(complete), "bystander_pairs": int(by is not None), "twin_cases": int(twins),
-                "app_pauses": drv.pauses_done, "calls_from_inside_protocol_callbacks": drv.reactions_done, "app_resumes_while_offline": drv.resumes_offline}
+                "app_pauses": drv.pauses_done, "false_factories": drv.falsy_factories, "calls_from_inside_protocol_callbacks": drv.reactions_done, "app_resumes_while_offline": drv.resumes_offline}
 
     def wit(extra=None):
         w = {"spec": spec, "roles": {n: str(dp.role(n)) for n in "AB"}, "states": {n: dp.mstate(n) for n in "AB"},
@@ -248,5 +249,5 @@ def run_case(spec):
                      "manager_states_seen": sorted({"%s.%s" % (k[0], k[1]) for k in MON.cov if k[0] == "Manager"})},
             "sample": {"spec": spec, "opens": [(r["side"], r["name"], bool(r["proto"])) for r in drv.opens],
                        "kills": kills, "complete": complete, "drain_end": end,
-                       "streams": [[len(getattr(r["proto"], "sent", [])), len([e for e in (q.events if q else []) if e[0] == "data"])] for (r, q) in drv.pairs()],
+                       "streams": [[len(getattr(r["proto"], "sent", [])), len([e for e in (q.events if q is not None else []) if e[0] == "data"])] for (r, q) in drv.pairs()],
                        "faults": [t for t in sch.trace if t[0] == "fault"]}}
